@@ -27,7 +27,8 @@ CONSTANTS Keys,        \* key identities; AddrOf is the identity on them
           Arity        \* numbers of required signers that occur (1 and 2)
 
 Muts == {"none", "payload", "feePrice", "feeGas", "feeCurrency", "memo", "type", "substKey", "flipSig",
-         "dropSigner", "addSigner", "swapSigners", "changeAlg", "resignOtherKey", "unsigned", "dupCoSigner"}
+         "dropSigner", "addSigner", "swapSigners", "changeAlg", "resignOtherKey", "unsigned", "dupCoSigner",
+         "algBtcec", "algEthsecp"}
 
 VARIABLES tx, mut, pos
 avars == <<tx, mut, pos>>
@@ -60,6 +61,8 @@ Apply(t, m, p) ==
     [] m = "addSigner" -> [t EXCEPT !.sigs = Append(@, Sig(Other, t.content))]
     [] m = "swapSigners" -> IF Len(t.sigs) < 2 THEN t ELSE [t EXCEPT !.sigs = <<@[2], @[1]>>]
     [] m = "changeAlg" -> [t EXCEPT !.sigs[p].alg = "secp256k1"]
+    [] m = "algBtcec" -> [t EXCEPT !.sigs[p].alg = "btcecsecp"]          \* the same key bytes under another of the chain's key types
+    [] m = "algEthsecp" -> [t EXCEPT !.sigs[p].alg = "ethsecp"]
     [] m = "resignOtherKey" -> [t EXCEPT !.sigs[p] = Sig(Other, t.content)]
     [] m = "unsigned" -> [t EXCEPT !.sigs = <<>>]
     [] m = "dupCoSigner" -> IF Len(t.sigs) < 2 THEN t ELSE [t EXCEPT !.sigs[p] = t.sigs[3 - p]]   \* a co-signer's key and signature in this slot
